@@ -47,6 +47,11 @@ type persistMachine struct {
 	Sos   []string   `json:"sos"`
 	Att   [][]int    `json:"att"`
 	Fresh bool       `json:"fresh"`
+	// the order in which processors are connected to the shared objects (empty: object by object)
+	Conn []struct {
+		P int `json:"p"`
+		S int `json:"s"`
+	} `json:"conn"`
 }
 
 var freshCounter int
@@ -409,9 +414,15 @@ func buildPersistMachine(d persistMachine) (*bondmachine.Bondmachine, bool, erro
 		if len(bm.Shared_objects) != len(d.Sos) {
 			return nil, false, fmt.Errorf("shared objects %v were not all instantiated (%d)", d.Sos, len(bm.Shared_objects))
 		}
-		for si, procs := range d.Att {
-			for _, p := range procs {
-				bm.Connect_processor_shared_object([]string{strconv.Itoa(p), strconv.Itoa(si)})
+		if len(d.Conn) > 0 {
+			for _, c := range d.Conn {
+				bm.Connect_processor_shared_object([]string{strconv.Itoa(c.P), strconv.Itoa(c.S)})
+			}
+		} else {
+			for si, procs := range d.Att {
+				for _, p := range procs {
+					bm.Connect_processor_shared_object([]string{strconv.Itoa(p), strconv.Itoa(si)})
+				}
 			}
 		}
 	}
@@ -521,8 +532,8 @@ func runC11(r *evid.Run) {
 	validateTopoTrace(r, tracePath, nEvents, lineOf, segStart, topoStates)
 
 	// ---- 2. the machine catalogue ---------------------------------------------------------------------
-	rowPath := filepath.Join(scratch, "rows.ndjson")
-	pres, err := tlc.Run(tlc.Options{SpecDir: specDir, Module: "BMPersist", Cfg: "BMPersist.cfg", Workers: 4, Timeout: 10 * time.Minute, Env: map[string]string{"ROWS": rowPath}})
+	rowPath, toolRowPath := filepath.Join(scratch, "rows.ndjson"), filepath.Join(scratch, "toolrows.ndjson")
+	pres, err := tlc.Run(tlc.Options{SpecDir: specDir, Module: "BMPersist", Cfg: "BMPersist.cfg", Workers: 4, Timeout: 10 * time.Minute, Env: map[string]string{"ROWS": rowPath, "TOOLROWS": toolRowPath}})
 	if err != nil || !pres.OK() {
 		r.Inconclusive("tlc BMPersist: %v", err)
 		return
@@ -557,13 +568,28 @@ func runC11(r *evid.Run) {
 		}
 		machines++
 		label := fmt.Sprintf("ops=%d threaded=%d ws+%d sos=%v", len(d.Dom.Ops), d.Dom.Threaded, d.Dom.WsExtra, d.Sos)
+		if len(d.Conn) > 0 {
+			label += fmt.Sprintf(" connected in the order %v", d.Conn)
+		}
 		re, saved, err := saveLoad(bm)
 		if err != nil {
 			r.Violate("saveload-error", fmt.Sprintf("save/load of a machine (%s) fails: %v", label, err), ctx)
 			return nil
 		}
 		re.Init()
-		saved2, _ := json.Marshal(re.Jsoner())
+		saved2, perr := func() (b []byte, err error) {
+			defer func() {
+				if e := recover(); e != nil {
+					err = fmt.Errorf("panic: %v", e)
+				}
+			}()
+			return json.Marshal(re.Jsoner())
+		}()
+		if perr != nil {
+			ctx["first"] = string(saved)
+			r.Violate("resave-fails", fmt.Sprintf("the reloaded machine cannot be saved again (%s): %v", label, perr), ctx)
+			return nil
+		}
 		if string(saved) != string(saved2) {
 			ctx["first"], ctx["second"] = string(saved), string(saved2)
 			r.Violate("resave-differs", fmt.Sprintf("save(load(save(bm))) differs from save(bm) for a machine with %s", label), ctx)
@@ -625,6 +651,76 @@ func runC11(r *evid.Run) {
 		r.Inconclusive("rows: %v", err)
 		return
 	}
+	// ---- 3. the load -> save path of the command line tool --------------------------------------------
+	toolBin, err := buildTool(scratch, "bondmachine")
+	if err != nil {
+		r.Inconclusive("cannot build cmd/bondmachine: %v", err)
+		return
+	}
+	var toolRuns int64
+	err = readNDJSON(toolRowPath, func(b []byte) error {
+		var row struct {
+			RSize   int    `json:"rsize"`
+			Request string `json:"request"`
+		}
+		if err := json.Unmarshal(b, &row); err != nil {
+			return err
+		}
+		bm := newBM(row.RSize)
+		for i, prog := range []string{"i2r r0 i0\ninc r0\nr2o r0 o0\nj 0\n", "i2r r1 i0\nr2o r1 o0\nj 0\n"} {
+			m, err := mkMachine(row.RSize, 2, 1, 1, 0, []string{"i2r", "inc", "r2o", "j"}, prog)
+			if err != nil {
+				r.Inconclusive("tool machine %d: %v", i, err)
+				return nil
+			}
+			addProc(bm, m)
+		}
+		bm.Add_input()
+		bm.Add_output()
+		bm.Add_bond([]string{"p0i0", "i0"})
+		bm.Add_bond([]string{"p1i0", "p0o0"})
+		bm.Add_bond([]string{"o0", "p1o0"})
+		before, err := json.Marshal(bm.Jsoner())
+		if err != nil {
+			r.Inconclusive("save: %v", err)
+			return nil
+		}
+		dir := filepath.Join(scratch, "tool")
+		os.MkdirAll(dir, 0o755)
+		file := filepath.Join(dir, "bm.json")
+		os.WriteFile(file, before, 0o644)
+		out, terr := runTool(dir, nil, 60*time.Second, toolBin, "-bondmachine-file", "bm.json", row.Request)
+		ctx := map[string]interface{}{"register_size": row.RSize, "request": row.Request, "tool_output": tailStr(out, 300)}
+		if terr != nil {
+			r.Violate("tool-fails:"+row.Request, fmt.Sprintf("bondmachine %s fails on a %d-bit machine file: %v", row.Request, row.RSize, terr), ctx)
+			return nil
+		}
+		toolRuns++
+		after, _ := os.ReadFile(file)
+		bj := new(bondmachine.Bondmachine_json)
+		if err := json.Unmarshal(after, bj); err != nil {
+			r.Violate("tool-file-unreadable", fmt.Sprintf("the file bondmachine %s wrote back cannot be read: %v", row.Request, err), ctx)
+			return nil
+		}
+		re := bj.Dejsoner()
+		if diff := deepDiff("bm", reflect.ValueOf(bm), reflect.ValueOf(re)); diff != "" {
+			ctx["difference"] = diff
+			r.Violate("tool-changes-machine:"+strings.SplitN(diff, ":", 2)[0], fmt.Sprintf("bondmachine %s on a %d-bit machine file: the file written back holds a different machine: %s", row.Request, row.RSize, diff), ctx)
+			return nil
+		}
+		v1, e1 := verilogText(bm)
+		v2, e2 := verilogText(re)
+		if (e1 == nil) != (e2 == nil) || v1 != v2 {
+			r.Violate("tool-changes-verilog", fmt.Sprintf("bondmachine %s on a %d-bit machine file: the machine written back generates different Verilog", row.Request, row.RSize), ctx)
+		}
+		r.Distinct(fmt.Sprintf("tool|%d|%s", row.RSize, row.Request))
+		return nil
+	})
+	if err != nil {
+		r.Inconclusive("tool rows: %v", err)
+		return
+	}
+	r.Set("tool_load_save_runs", toolRuns)
 	r.Set("states", states)
 	r.Set("transitions", transitions)
 	r.Set("topology_states_saved_and_reloaded", topoStates)
